@@ -188,7 +188,7 @@ theorem run3_store_lex (L : Laws3 D) {c : Ctx} {W : World} {s : MSt H} {σ : SSt
   rw [hl] at hl'; cases hl'
   obtain ⟨old, wold, h1, h2, h3, _⟩ := hi.vars e n l hW
   obtain ⟨h', hput, hext, hsrx, hget, hglob⟩ :=
-    L.envPut_ok s.heap σ.store e n old s.acc hi.extra h1 h2 (VR3.not_envptr L hacc) (VR3.ne_undefined L hacc)
+    L.envPut_ok s.heap σ.store e n old s.acc hi.extra (hi.wact e n l hW) h1 h2 (VR3.not_envptr L hacc) (VR3.ne_undefined L hacc)
   have hs1 := step_mov_acc_env hc.1 (hc.op 0 rfl) (hc.accCell 1 rfl) hf2 hd hput
   have hse : StoreExt σ.store (σ.store.setIfInBounds l (.var w)) := StoreExt.setVar _ _ _ _ h3
   have hx2 : Ext3 D s.heap σ.store h' (σ.store.setIfInBounds l (.var w)) := hext.trans (Ext3.storeOnly L h' hse)
@@ -202,7 +202,10 @@ theorem run3_store_lex (L : Laws3 D) {c : Ctx} {W : World} {s : MSt H} {σ : SSt
     obtain ⟨rfl, rfl⟩ := Denotes.func hd hd'
     exact ⟨s.acc, by show ops.envGet h' _ _ = _; rw [hget]; simp, VR3.not_envptr L hacc, VR3.ne_undefined L hacc⟩
   refine ⟨fun y u hn hy => ?_, fun y hn hy => ?_, L.srx_store _ _ _ hse hsrx, hi.gset, hi.loaded.ext hx2.toExt2, hi.wfun,
-    hi.winj, fun e' n' l' hW' => ?_⟩
+    hi.winj, fun e' n' l' hW' => ?_, fun e' n' l' hW' ok => ?_⟩
+  rotate_right
+  · obtain ⟨v, _, g1, _⟩ := hi.vars e' n' l' hW'
+    exact hi.wact e' n' l' hW' (hx2.okBack e' n' v g1 ok)
   · show VR3 D W h' _ (ops.globGet h' _) u
     rw [hglob]; exact (hi.bound y u hn hy).mono hx2 (World.le_refl _)
   · show ops.globGet h' _ = _
@@ -237,7 +240,10 @@ theorem run3_store_glob (L : Laws3 D) {c : Ctx} {W : World} {s : MSt H} {σ : SS
   have hs2 := run3_movImm_void (s := { s with heap := ops.globPut s.heap (D.slot x) s.acc, ipO := s.ipO + 3 }) hc2
   refine ⟨_, ⟨.cons hs1 (Steps.one hs2), rfl, rfl, rfl, rfl, LiveEq.refl _, hw, VR3.void L _ _ _, ?_, hext⟩⟩
   refine ⟨fun y u hny hy => ?_, fun y hny hy => ?_, hsrx, fun y hy => ?_, hi.loaded.ext hext.toExt2, hi.wfun, hi.winj,
-    fun e' n' l' hW' => ?_⟩
+    fun e' n' l' hW' => ?_, fun e' n' l' hW' ok => ?_⟩
+  rotate_right
+  · obtain ⟨v, _, g1, _⟩ := hi.vars e' n' l' hW'
+    exact hi.wact e' n' l' hW' (hext.okBack e' n' v g1 ok)
   · show VR3 D W (ops.globPut s.heap (D.slot x) s.acc) σ.store (ops.globGet _ _) u
     have hy' : (insertG x w σ.globals).lookup y = some u := hy
     rw [Spec.Eval.lookup_insertG] at hy'
